@@ -5,7 +5,7 @@
 use crate::client::{self, CfgSpec, ClientPlan, OpSpec};
 use crate::conn::Sched;
 use crate::framework::{Check, Family, RunOut, Tier};
-use crate::model::{judge_fault_free, shape_of};
+use crate::model::{judge_fault_free, judge_under_faults, shape_of};
 use crate::pt::*;
 use crate::rng::Rng;
 
@@ -16,7 +16,10 @@ pub struct ClientCheck {
 pub fn run_fault_free(id: &'static str, plan: &ClientPlan, want_trace: bool) -> RunOut {
     let mut out = RunOut::new();
     let run = client::run(plan);
-    let j = judge_fault_free(plan, &run);
+    let faulty = !plan.faults.is_empty()
+        || plan.connects.iter().any(|c| !matches!(c, client::ConnectSpec::Ok | client::ConnectSpec::DelayMs(_)))
+        || crate::c09::serial_mismatch(plan);
+    let j = if faulty { judge_under_faults(plan, &run) } else { judge_fault_free(plan, &run) };
     for (prop, v) in j.v {
         if prop == id || prop == "*" {
             out.violations.push(v);
@@ -304,6 +307,39 @@ pub fn random_walk(rng: &mut Rng, tokens: &[&str], max_len: usize) -> ClientPlan
     p
 }
 
+/// Transport faults for a history (the results-only part of the model still applies).
+pub fn add_faults(p: &mut ClientPlan, rng: &mut Rng) {
+    let nf = 1 + rng.usize_below(3);
+    for _ in 0..nf {
+        let kind = match rng.below(9) {
+            0 => FaultKind::Eof,
+            1 => FaultKind::EofMid(rng.below(40) as u16),
+            2 => FaultKind::Reset,
+            3 => FaultKind::Nack(rng.next_u64() as u8),
+            4 => FaultKind::BadBody,
+            5 => FaultKind::Silence,
+            6 => FaultKind::EpipeAfter,
+            7 => FaultKind::StallMid(rng.below(20) as u16),
+            _ => FaultKind::Foreign(0x06, 0xd8),
+        };
+        let conn = if rng.pct(70) { 0 } else { rng.below(4) as u16 };
+        // beyond the 12 emission points of Feig::new on connection 0, so that most faults hit the calls
+        let point = if conn == 0 { 13 + rng.below(40) as u16 } else { 1 + rng.below(25) as u16 };
+        p.faults.push(FaultSpec { conn, point, kind });
+    }
+    if rng.pct(15) {
+        let at = 1 + rng.usize_below(3);
+        p.connects = vec![client::ConnectSpec::Ok; at];
+        p.connects.push(client::ConnectSpec::Refused);
+    }
+}
+
+pub fn faulty_walk(rng: &mut Rng, tokens: &[&str], max_len: usize) -> ClientPlan {
+    let mut p = random_walk(rng, tokens, max_len);
+    add_faults(&mut p, rng);
+    p
+}
+
 fn cp437_token(rng: &mut Rng) -> String {
     // every CP437 byte except a trailing NUL; decoded through the code page so
     // that the client can encode it back
@@ -575,6 +611,7 @@ impl Check for ClientCheck {
                     Tier::Thorough => (1_500_000, 40),
                 };
                 fams.push(Family::new("random_walks_5_tokens", n, false, move |_, rng| random_walk(rng, &TOKENS5, len)));
+                fams.push(Family::new("random_walks_under_transport_faults", n / 2, false, move |_, rng| faulty_walk(rng, &TOKENS5, 12)));
             }
             "C08" => {
                 // boundary grid: pre x final, exhaustive over the listed boundary values
@@ -614,6 +651,11 @@ impl Check for ClientCheck {
                     Tier::Thorough => 2_000_000,
                 };
                 fams.push(Family::new("prng_amounts_tokens_receipts_status_fields", n, false, |_, rng| value_plan(rng)));
+                fams.push(Family::new("prng_values_under_transport_faults", n / 3, false, |_, rng| {
+                    let mut p = value_plan(rng);
+                    add_faults(&mut p, rng);
+                    p
+                }));
             }
             "C18" => {
                 let cards = all_cards();
@@ -633,6 +675,27 @@ impl Check for ClientCheck {
                     let mut p = ClientPlan::plain(ops);
                     p.sched = client::default_sched_variants(i, rng.next_u64());
                     p.pt.bmp_reversed = i % 2 == 1;
+                    p
+                }));
+                // the same grid with a connection failure between / inside the presentations
+                let cards2 = all_cards();
+                let n2 = cards2.len() as u64;
+                fams.push(Family::new("card_grid_with_reconnect_in_between", n2 * 4, true, move |i, rng| {
+                    let c = cards2[(i / 4) as usize].clone();
+                    let ops = (0..3)
+                        .map(|k| OpSpec::ReadCard {
+                            card: CardOutcome {
+                                pre: (k % 2) as u8,
+                                kind: c.clone(),
+                                delay_ms: 0,
+                            },
+                        })
+                        .collect();
+                    let mut p = ClientPlan::plain(ops);
+                    // emission points 13.. belong to the first read_card on connection 0
+                    let kind = [FaultKind::Eof, FaultKind::Reset, FaultKind::Silence, FaultKind::EofMid(3)][(i % 4) as usize];
+                    p.faults = vec![FaultSpec { conn: 0, point: 13 + (i % 3) as u16 + 3, kind }, FaultSpec { conn: 1, point: 6, kind: FaultKind::BadBody }];
+                    p.sched = client::default_sched_variants(i, rng.next_u64());
                     p
                 }));
                 fams.push(Family::new("all_256_abort_codes", 256 * 2, true, |i, _| {
@@ -760,6 +823,7 @@ impl Check for ClientCheck {
                     Tier::Thorough => 1_500_000,
                 };
                 fams.push(Family::new("random_walks_with_cleanup_variants", n, false, |_, rng| random_walk(rng, &TOKENS5, 24)));
+                fams.push(Family::new("random_walks_under_transport_faults", n / 2, false, |_, rng| faulty_walk(rng, &TOKENS5, 12)));
             }
             "C20" => {
                 // exchange x 256 codes x abort after k in 0..4 non-final packets
@@ -987,7 +1051,7 @@ impl Check for ClientCheck {
         match self.id {
             "C07" => vec!["probe.begin_refused", "probe.unknown_token_refused", "probe.begin_ok", "probe.begin_failed_by_terminal", "probe.reversal_aborted"],
             "C08" => vec!["probe.summary_compared", "probe.cleanup_with_dangling_receipt"],
-            "C18" => vec!["probe.card_bank", "probe.card_membership", "probe.card_timeout", "probe.card_abort", "probe.card_unclassifiable", "probe.card_first_entry_without_id"],
+            "C18" => vec!["probe.card_classified_after_retry", "probe.card_bank", "probe.card_membership", "probe.card_timeout", "probe.card_abort", "probe.card_unclassifiable", "probe.card_first_entry_without_id"],
             "C19" => vec!["probe.cleanup_expected", "probe.cleanup_with_dangling_receipt", "probe.no_cleanup_while_open", "probe.eod_refused", "probe.dangling_reversal_refused"],
             "C20" => vec!["probe.card_abort", "probe.reversal_aborted", "probe.eod_refused", "probe.configure_aborted", "probe.begin_failed_by_terminal"],
             _ => vec![],
